@@ -10,6 +10,7 @@
 -/
 import GojaModel.C12.Lemmas
 import GojaModel.C12.Grammar
+import GojaModel.C12.RadixProps
 
 namespace GojaModel.C12
 
@@ -928,6 +929,23 @@ theorem parseNumber_of_radix_literal (s : List Char) (x : Char) (R : Nat) (r : L
   unfold parseNumber
   simp only [ht, List.isEmpty_cons, Bool.false_eq_true, if_false, hx]
   exact (nonDecimal_spec R r).1 ⟨hne, hd⟩
+
+/-! ## mechanism model of `ftoa.FToBaseStr` (Radix.lean; proofs in RadixLemmas.lean / RadixProps.lean) -/
+
+/-- The integer part printed by `toString(radix)` (positional digits) denotes the integer part, in every radix. -/
+theorem radix_int_digits_value (r n : Nat) : natOfDigits r (radixDigits r n) = n := radixDigits_value r n
+
+/-- The initial state `FToBaseStr` computes from the exponent field (`s2`, power-of-two special case, `b = df·2^s2`)
+represents the double: fraction part and half-gaps to both neighbours — for every finite non-integer double. -/
+theorem radix_init_represents (f : F64) (hR : f.mag % scale ≠ 0) : InitRel f (fracInit f) := fracInit_rel f hR
+
+/-- **toString(radix) parses back for EVERY finite double and every radix** (transcription of `FToBaseStr`; the
+driver checks on every run that the transcription prints exactly goja's string).  Proviso: the loop finishes within
+the fuel (termination not proved). -/
+theorem radix_mechanism_sound (fuel : Nat) (f : F64) (r : Nat) (hr : 0 < r) (hfin : f.exp < 2047)
+    (ipd fd : List Nat) (h : toBaseDigitsFuel fuel f r = (ipd, some fd)) :
+    isNearestMag (natOfDigits r (ipd ++ fd)) (r ^ fd.length) f.ord = true :=
+  toBaseStr_sound fuel f r hr hfin ipd fd h
 
 /-- The grid of doubles is strictly increasing in the ordered bit pattern (needed by all of the above). -/
 theorem value_strictMono {j k : Nat} (h : j < k) : magOrd j < magOrd k := magOrd_strictMono h
